@@ -154,7 +154,12 @@ func (n *Node) open() error {
 	if root == nil {
 		root = n
 	}
-	n.RC = &RC{self: n, rootNode: root}
+	// a restart keeps the configuration of the root-chain manager but not its cache content
+	prev := n.RC
+	n.RC = &RC{self: n, rootNode: root, CacheDex: true}
+	if prev != nil {
+		n.RC.CacheDex, n.RC.DropTx, n.RC.Calls = prev.CacheDex, prev.DropTx, prev.Calls
+	}
 	c.RCManager = n.RC
 	n.RefreshConsensus()
 	// Controller.Start() runs one mempool check once the root chain info is available; it also installs Mempool.stop
